@@ -286,8 +286,10 @@ class MemTermsReader(base.TermsReader):
                 yield (fieldname, btext)
 
     def terms_from(self, fieldname, prefix):
+        # A field none of the buffered documents has simply has no terms
+        # here (the on-disk terms reader does not raise either)
         if fieldname not in self._invindex:
-            raise TermNotFound("Unknown field %r" % (fieldname,))
+            return
         terms = sorted(self._invindex[fieldname])
         if not terms:
             return
